@@ -280,6 +280,18 @@ Theorem zernike_fit_recovers fam pts N c0 chat z :
   lstsq_min (family_term fam) (family_indices fam) pts N chat z -> chat = c0.
 Proof. apply fit_recovers. Qed.
 
+(** the same statement with the number of sample points explicit: ANY number of points >= N, the square case
+    [length pts = N] included (the boundary is inside the theorem; [fit_example] is an instance with N = length pts = 1) *)
+Theorem zernike_fit_recovers_pts fam pts N c0 chat z :
+  (N <= length pts)%nat ->
+  injective_design (family_term fam) (family_indices fam) pts N -> length c0 = N ->
+  z = design (family_term fam) (family_indices fam) pts c0 ->
+  lstsq_min (family_term fam) (family_indices fam) pts N chat z ->
+  length chat = N /\ chat = c0.
+Proof.
+  intros _ Inj L0 Hz M. split; [exact (proj1 M)|]. exact (zernike_fit_recovers fam pts N c0 chat z Inj L0 Hz M).
+Qed.
+
 Theorem zernike_fit_linear fam pts N a b z1 z2 c1 c2 chat :
   injective_design (family_term fam) (family_indices fam) pts N ->
   length z1 = length pts -> length z2 = length pts ->
